@@ -418,3 +418,346 @@ Proof.
   split; [congruence|].
   apply place_bid_hooks in Hp as [b' [Hb [B1 [B2 _]]]]. exists b'. repeat split; assumption.
 Qed.
+
+(* ================================================================== 8./9. persistence and the invariant *)
+Definition bids_allowed (s : state) : Prop :=
+  forall b, In b (st_bids s) -> find_allowed s (b_auction b) (b_bidder b) <> None.
+
+(* what one step guarantees: no entry disappears, and every bid of the post-state either has
+   the key of an old bid or an entry in the pre-state *)
+Definition step_rel (s s' : state) : Prop :=
+  apersist s s' /\
+  forall b', In b' (st_bids s') ->
+    (exists b, In b (st_bids s) /\ b_auction b = b_auction b' /\ b_bidder b = b_bidder b')
+    \/ find_allowed s (b_auction b') (b_bidder b') <> None.
+
+Lemma step_rel_inv : forall s s', step_rel s s' -> bids_allowed s -> bids_allowed s'.
+Proof.
+  intros s s' [Hp Hb] Hinv b' Hb'. apply Hp.
+  destruct (Hb b' Hb') as [[b [Hin [Ha Hu]]]|H]; [|exact H].
+  rewrite <- Ha, <- Hu. apply Hinv. exact Hin.
+Qed.
+
+Lemma step_rel_keeps : forall s s',
+  st_allowed s' = st_allowed s -> bsub (st_bids s) (st_bids s') -> step_rel s s'.
+Proof.
+  intros s s' Ha Hb. split; [apply apersist_eq; exact Ha|].
+  intros b' Hb'. left. apply Hb. exact Hb'.
+Qed.
+
+Lemma step_rel_same : forall s s', st_allowed s' = st_allowed s -> st_bids s' = st_bids s -> step_rel s s'.
+Proof. intros s s' Ha Hb. apply step_rel_keeps; [exact Ha | rewrite Hb; apply bsub_refl]. Qed.
+
+Lemma commit_rel : forall s r,
+  (forall s', r = Ok s' -> step_rel s s') -> step_rel s (snd (commit s r)).
+Proof.
+  intros s r H. destruct r as [s'|c tr]; cbn [commit snd]; [apply H; reflexivity|].
+  apply step_rel_same; reflexivity.
+Qed.
+
+Lemma keeps_rel : forall s r s', keeps s r -> r = Ok s' -> step_rel s s'.
+Proof. intros s r s' K ->. destruct K as [Ha Hb]. apply step_rel_keeps; assumption. Qed.
+
+Lemma place_bid_rel : forall s u id bt price d amt s',
+  place_bid s u id bt price d amt = Ok s' -> step_rel s s'.
+Proof.
+  intros s u id bt price d amt s' H. pose proof (place_bid_allowed _ _ _ _ _ _ _ _ H) as Ha.
+  pose proof H as H'. apply place_bid_ok in H' as [a [e [s2 [b0 [_ [_ [Hal _]]]]]]].
+  apply place_bid_hooks in H as [b [Hb [B1 [B2 _]]]].
+  split; [apply apersist_eq; exact Ha|].
+  intros b' Hb'. rewrite Hb in Hb'. apply in_app_or in Hb' as [Hin|[<-|[]]].
+  - left. exists b'. repeat split; [exact Hin].
+  - right. rewrite B1, B2, Hal. discriminate.
+Qed.
+
+Lemma api_add_rel : forall s id l s', api_add s id l = Ok s' -> step_rel s s'.
+Proof.
+  intros s id l s' H. apply api_add_ok in H as [a [_ [_ [_ [_ H]]]]].
+  pose proof (add_entries_shape _ _ _ _ H) as [x Hx].
+  apply add_entries_persist in H as [Hp _]. split.
+  - intros a0 u0 Hf. apply Hp. exact Hf.
+  - intros b' Hb'. left. exists b'. rewrite Hx in Hb'. repeat split; [exact Hb'].
+Qed.
+
+Lemma api_update_rel : forall s id u max s', api_update s id u max = Ok s' -> step_rel s s'.
+Proof.
+  intros s id u max s' H. apply api_update_ok in H as [a [e [m [_ [_ [_ [_ [_ ->]]]]]]]]. split.
+  - intros a0 u0 Hf. apply put_allowed_persist. exact Hf.
+  - intros b' Hb'. left. exists b'.
+    destruct (put_allowed_shape (with_trace s (st_trace s ++ all_calls s H_BeforeAllowedUpdated [zN id; zN u; m])) id u m)
+      as [x Hx]. rewrite Hx in Hb'. repeat split; [exact Hb'].
+Qed.
+
+Lemma handle_rel : forall s c s', handle s c = Ok s' -> step_rel s s'.
+Proof.
+  intros s c s' H. destruct c; cbn [handle] in H.
+  - eapply keeps_rel; [apply create_fixed_keeps | exact H].
+  - eapply keeps_rel; [apply create_batch_keeps | exact H].
+  - eapply keeps_rel; [apply cancel_keeps | exact H].
+  - eapply place_bid_rel; exact H.
+  - eapply keeps_rel; [apply modify_bid_keeps | exact H].
+  - destruct (st_switch s); [eapply api_add_rel; exact H | discriminate].
+  - eapply keeps_rel; [apply update_params_keeps | exact H].
+Qed.
+
+(* ---- genesis export / import ---- *)
+Lemma insert_In : forall {A} (le : A -> A -> bool) x y l, In y (insert le x l) <-> y = x \/ In y l.
+Proof.
+  intros A le x y l. induction l as [|z r IH]; cbn [insert].
+  - cbn. intuition congruence.
+  - destruct (le x z); cbn [In]; [intuition congruence|]. rewrite IH. intuition congruence.
+Qed.
+
+Lemma sort_by_In : forall {A} (le : A -> A -> bool) l y, In y (sort_by le l) <-> In y l.
+Proof.
+  intros A le l y. induction l as [|x r IH]; cbn [sort_by fold_right]; [reflexivity|].
+  change (fold_right (insert le) [] r) with (sort_by le r). rewrite insert_In, IH. cbn [In]. intuition congruence.
+Qed.
+
+Definition reput (s : state) (x : allowed) : state := put_allowed s (al_auction x) (al_bidder x) (al_max x).
+
+Lemma fold_reput_bids : forall l s0, st_bids (fold_left reput l s0) = st_bids s0.
+Proof.
+  induction l as [|x r IH]; intros s0; cbn [fold_left]; [reflexivity|].
+  rewrite IH. unfold reput. destruct (put_allowed_shape s0 (al_auction x) (al_bidder x) (al_max x)) as [y ->]. reflexivity.
+Qed.
+
+Lemma fold_reput_find : forall l s0 a u,
+  (find_allowed s0 a u <> None \/ exists x, In x l /\ al_auction x = a /\ al_bidder x = u) ->
+  find_allowed (fold_left reput l s0) a u <> None.
+Proof.
+  induction l as [|x r IH]; intros s0 a u H; cbn [fold_left].
+  - destruct H as [H|[x [[] _]]]. exact H.
+  - apply IH. destruct H as [H|[y [[<-|Hy] [Ha Hu]]]].
+    + left. apply put_allowed_persist. exact H.
+    + left. unfold reput. rewrite find_put_allowed, Ha, Hu, !N.eqb_refl. discriminate.
+    + right. exists y. repeat split; assumption.
+Qed.
+
+(* when the key (a, u) determines the entry, the import re-creates exactly that entry *)
+Lemma fold_reput_exact : forall l s0 a u e,
+  al_auction e = a -> al_bidder e = u ->
+  (forall x, In x l -> al_auction x = a -> al_bidder x = u -> x = e) ->
+  (find_allowed s0 a u = Some e \/ In e l) ->
+  find_allowed (fold_left reput l s0) a u = Some e.
+Proof.
+  induction l as [|x r IH]; intros s0 a u e Ha Hu Huniq H; cbn [fold_left].
+  - destruct H as [H|[]]. exact H.
+  - apply IH; [exact Ha | exact Hu | intros y Hy; apply Huniq; right; exact Hy |].
+    unfold reput. rewrite find_put_allowed.
+    destruct (N.eqb a (al_auction x) && N.eqb u (al_bidder x)) eqn:Hk.
+    + apply andb_true_iff in Hk as [Hka Hku]. apply N.eqb_eq in Hka. apply N.eqb_eq in Hku.
+      assert (Hx : x = e) by (apply Huniq; [left; reflexivity | congruence | congruence]).
+      left. subst x. destruct e; reflexivity.
+    + destruct H as [H|[Hx|Hr]]; [left; exact H | | right; exact Hr].
+      subst x. rewrite Ha, Hu, !N.eqb_refl in Hk. discriminate.
+Qed.
+
+Lemma import_bids_spec : forall l s0 s1, import_bids s0 l = Some s1 ->
+  st_allowed s1 = st_allowed s0 /\
+  forall b', In b' (st_bids s1) ->
+    In b' (st_bids s0) \/ exists b, In b l /\ b_auction b' = b_auction b /\ b_bidder b' = b_bidder b.
+Proof.
+  induction l as [|b r IH]; intros s0 s1 H; cbn [import_bids] in H.
+  - injection H as <-. split; [reflexivity | intros b' Hb'; left; exact Hb'].
+  - destruct (find_auction s0 (b_auction b)); [|discriminate].
+    apply IH in H as [Ha Hb]. sproj_in Ha. split; [exact Ha|].
+    intros b' Hb'. destruct (Hb b' Hb') as [Hin|[b0 [Hin [E1 E2]]]].
+    + sproj_in Hin. apply in_app_or in Hin as [Hin|[<-|[]]]; [left; exact Hin|].
+      right. exists b. split; [left; reflexivity | split; reflexivity].
+    + right. exists b0. split; [right; exact Hin | split; assumption].
+Qed.
+
+Lemma import_vqs_spec : forall l s0 s1, import_vqs s0 l = Some s1 ->
+  st_allowed s1 = st_allowed s0 /\ st_bids s1 = st_bids s0.
+Proof.
+  induction l as [|v r IH]; intros s0 s1 H; cbn [import_vqs] in H.
+  - injection H as <-. split; reflexivity.
+  - destruct (find_auction s0 (v_auction v)); [|discriminate].
+    apply IH in H as [Ha Hb]. split; [exact Ha | exact Hb].
+Qed.
+
+Lemma genesis_shape : forall s v s', genesis_roundtrip s = Some (v, s') ->
+  exists base s1,
+    st_allowed base = [] /\ st_bids base = [] /\
+    st_allowed s' = st_allowed (fold_left reput (sort_by allowed_le (st_allowed s)) base) /\
+    import_bids (fold_left reput (sort_by allowed_le (st_allowed s)) base) (sort_by bid_le (st_bids s)) = Some s1 /\
+    st_bids s' = st_bids s1.
+Proof.
+  intros s v s' H. unfold genesis_roundtrip in H.
+  destruct (import s (export s)) as [s2|] eqn:Hi; [|discriminate]. injection H as _ <-.
+  unfold import in Hi. destruct (import_auctions (g_auctions (export s)) 0%N) as [aus seq].
+  cbn [g_allowed g_bids g_vqs g_params export] in Hi.
+  match type of Hi with context [fold_left ?f ?l ?b] =>
+    change (fold_left f l b) with (fold_left reput l b) in Hi; set (base := b) in *;
+    set (s0 := fold_left reput l base) in * end.
+  destruct (import_bids s0 (sort_by bid_le (st_bids s))) as [s1|] eqn:Hb; [|discriminate].
+  match type of Hi with context [import_vqs ?x ?l] => destruct (import_vqs x l) as [s3|] eqn:Hv; [|discriminate] end.
+  injection Hi as <-. apply import_vqs_spec in Hv as [Hva Hvb]. sproj_in Hva. sproj_in Hvb.
+  pose proof (import_bids_spec _ _ _ Hb) as [Hba _].
+  exists base, s1. split; [reflexivity|]. split; [reflexivity|]. sproj.
+  split; [rewrite Hva, Hba; reflexivity|]. split; [exact Hb | exact Hvb].
+Qed.
+
+Lemma find_allowed_In : forall s a u e, find_allowed s a u = Some e ->
+  In e (st_allowed s) /\ al_auction e = a /\ al_bidder e = u.
+Proof.
+  intros s a u e H. unfold find_allowed in H. apply find_some in H as [Hin Hk].
+  apply andb_true_iff in Hk as [Ha Hu]. apply N.eqb_eq in Ha. apply N.eqb_eq in Hu. repeat split; assumption.
+Qed.
+
+Lemma genesis_rel : forall s v s', genesis_roundtrip s = Some (v, s') -> step_rel s s'.
+Proof.
+  intros s v s' H. apply genesis_shape in H as [base [s1 [Hba [Hbb [Ha [Hib Hb]]]]]].
+  assert (Hp : apersist s s').
+  { intros a u Hf. unfold find_allowed at 1. rewrite Ha.
+    apply fold_reput_find. right.
+    destruct (find_allowed s a u) as [e|] eqn:He; [|contradiction].
+    apply find_allowed_In in He as [Hin [Hea Heu]]. exists e. split; [apply sort_by_In; exact Hin | split; assumption]. }
+  split; [exact Hp|].
+  intros b' Hb'. rewrite Hb in Hb'. apply import_bids_spec in Hib as [_ Hib].
+  destruct (Hib b' Hb') as [Hin|[b [Hin [E1 E2]]]].
+  - rewrite fold_reput_bids, Hbb in Hin. destruct Hin.
+  - left. exists b. apply sort_by_In in Hin. repeat split; [exact Hin | congruence | congruence].
+Qed.
+
+(* ---- every step ---- *)
+Theorem step_step_rel : forall s o, step_rel s (snd (step s o)).
+Proof.
+  intros s o. destruct o as [m|a l|a u max|t orc|t orc k|from to d amt|ls|]; cbn [step].
+  - unfold deliver_tx. destruct (check_basic m) as [c|]; [|apply step_rel_same; reflexivity].
+    apply commit_rel. apply handle_rel.
+  - apply commit_rel. apply api_add_rel.
+  - apply commit_rel. apply api_update_rel.
+  - destruct (begin_block s t orc) as [s'|c tr] eqn:Hb; cbn [snd]; [|apply step_rel_same; reflexivity].
+    eapply keeps_rel; [apply begin_block_keeps | exact Hb].
+  - destruct (begin_block s t orc) as [s'|c tr] eqn:Hb; cbn [snd]; [|apply step_rel_same; reflexivity].
+    destruct (Nat.ltb k (length (st_xfers s') - length (st_xfers s))); cbn [snd]; [apply step_rel_same; reflexivity|].
+    eapply keeps_rel; [apply begin_block_keeps | exact Hb].
+  - apply commit_rel. intros s' Hs. destruct (0 <? amt); [|discriminate].
+    eapply keeps_rel; [apply send_keeps | exact Hs].
+  - apply step_rel_same; reflexivity.
+  - destruct (genesis_roundtrip s) as [[v s']|] eqn:Hg; cbn [snd]; [|apply step_rel_same; reflexivity].
+    eapply genesis_rel; exact Hg.
+Qed.
+
+(* 8. no operation (OGenesis included) removes an allow-list entry *)
+Theorem entries_persist : forall s o a u e,
+  find_allowed s a u = Some e -> exists e', find_allowed (snd (step s o)) a u = Some e'.
+Proof.
+  intros s o a u e H. destruct (step_step_rel s o) as [Hp _].
+  specialize (Hp a u). rewrite H in Hp.
+  destruct (find_allowed (snd (step s o)) a u) as [e'|]; [exists e'; reflexivity|].
+  exfalso. apply Hp; [discriminate | reflexivity].
+Qed.
+
+(* 9. the invariant *)
+Theorem bids_allowed_step : forall s o, bids_allowed s -> bids_allowed (snd (step s o)).
+Proof. intros s o. apply step_rel_inv. apply step_step_rel. Qed.
+
+Lemma bids_allowed_nobids : forall s, st_bids s = [] -> bids_allowed s.
+Proof. intros s H b Hb. rewrite H in Hb. destruct Hb. Qed.
+
+Theorem bids_allowed_run : forall ops s0, bids_allowed s0 -> bids_allowed (run s0 ops).
+Proof.
+  induction ops as [|o r IH]; intros s0 H; cbn [run fold_left]; [exact H|].
+  apply IH. apply bids_allowed_step. exact H.
+Qed.
+
+(* ---- 8, sharper: the cap of (a, u) can change only through the allow-list API on auction a ---- *)
+Definition touches_cap (a : N) (o : op) : Prop :=
+  match o with
+  | OApiAdd a' _ | OApiUpdate a' _ _ | OTx (MAddAllowed a' _ _ _) => a' = a
+  | OGenesis => True
+  | _ => False
+  end.
+
+Lemma api_add_other : forall s id l s' a u,
+  api_add s id l = Ok s' -> a <> id -> find_allowed s' a u = find_allowed s a u.
+Proof.
+  intros s id l s' a u H Hne. apply api_add_ok in H as [a0 [_ [_ [Hid [_ H]]]]].
+  apply add_entries_persist in H as [_ Ho]. rewrite Ho by congruence. reflexivity.
+Qed.
+
+Lemma api_update_other : forall s id u0 max s' a u,
+  api_update s id u0 max = Ok s' -> a <> id -> find_allowed s' a u = find_allowed s a u.
+Proof.
+  intros s id u0 max s' a u H Hne. apply api_update_ok in H as [a0 [e [m [_ [_ [_ [_ [_ ->]]]]]]]].
+  rewrite put_allowed_other by exact Hne. reflexivity.
+Qed.
+
+Lemma find_allowed_eq : forall s s' a u, st_allowed s' = st_allowed s -> find_allowed s' a u = find_allowed s a u.
+Proof. intros s s' a u H. unfold find_allowed. now rewrite H. Qed.
+
+Theorem cap_unchanged : forall s o a u,
+  ~ touches_cap a o -> find_allowed (snd (step s o)) a u = find_allowed s a u.
+Proof.
+  intros s o a u Hn.
+  destruct o as [m|a' l|a' u' max|t orc|t orc k|from to d amt|ls|].
+  - cbn [step]. unfold deliver_tx. destruct (check_basic m) as [c|] eqn:Hc; [|reflexivity].
+    destruct (handle s c) as [s'|code tr] eqn:Hh; cbn [commit snd]; [|reflexivity].
+    destruct c as [| | | | |a' ea up u' max|];
+      try (apply find_allowed_eq; eapply handle_allowed; [exact Hh | exact I]).
+    apply check_basic_add in Hc. subst m. cbn in Hn. cbn [handle] in Hh.
+    destruct (st_switch s); [|discriminate]. eapply api_add_other; [exact Hh | congruence].
+  - cbn [step]. destruct (api_add s a' l) as [s'|code tr] eqn:Hh; cbn [commit snd]; [|reflexivity].
+    eapply api_add_other; [exact Hh | cbn in Hn; congruence].
+  - cbn [step]. destruct (api_update s a' u' max) as [s'|code tr] eqn:Hh; cbn [commit snd]; [|reflexivity].
+    eapply api_update_other; [exact Hh | cbn in Hn; congruence].
+  - apply find_allowed_eq. apply allowed_frame_step. intros [].
+  - apply find_allowed_eq. apply allowed_frame_step. intros [].
+  - apply find_allowed_eq. apply allowed_frame_step. intros [].
+  - apply find_allowed_eq. apply allowed_frame_step. intros [].
+  - exfalso. apply Hn. exact I.
+Qed.
+
+(* genesis export/import re-creates every entry exactly when keys determine entries *)
+Definition unique_keys (s : state) : Prop :=
+  forall x y, In x (st_allowed s) -> In y (st_allowed s) ->
+    al_auction x = al_auction y -> al_bidder x = al_bidder y -> x = y.
+
+Theorem genesis_entries_exact : forall s a u e,
+  unique_keys s -> find_allowed s a u = Some e ->
+  find_allowed (snd (step s OGenesis)) a u = Some e.
+Proof.
+  intros s a u e Hu Hf. cbn [step].
+  destruct (genesis_roundtrip s) as [[v s']|] eqn:Hg; cbn [snd]; [|exact Hf].
+  apply genesis_shape in Hg as [base [s1 [Hba [_ [Ha _]]]]].
+  unfold find_allowed at 1. rewrite Ha.
+  apply find_allowed_In in Hf as [Hin [Hea Heu]].
+  apply fold_reput_exact; [exact Hea | exact Heu | | right; apply sort_by_In; exact Hin].
+  intros x Hx Hxa Hxu. apply sort_by_In in Hx. apply Hu; [exact Hx | exact Hin | congruence | congruence].
+Qed.
+
+(* all operations together: an entry survives every step with its cap, unless the step is an
+   allow-list API call on its auction *)
+Theorem entries_persist_exact : forall s o a u e,
+  unique_keys s ->
+  match o with
+  | OApiAdd a' _ | OApiUpdate a' _ _ | OTx (MAddAllowed a' _ _ _) => a' <> a
+  | _ => True
+  end ->
+  find_allowed s a u = Some e -> find_allowed (snd (step s o)) a u = Some e.
+Proof.
+  intros s o a u e Hu Ho Hf.
+  destruct o as [m|a' l|a' u' max|t orc|t orc k|from to d amt|ls|];
+    try solve [rewrite cap_unchanged; [exact Hf | cbn; tauto]].
+  - rewrite cap_unchanged; [exact Hf|]. destruct m; cbn; tauto.
+  - apply genesis_entries_exact; assumption.
+Qed.
+
+Lemma may_change_dec : forall s o, may_change_allowed s o \/ ~ may_change_allowed s o.
+Proof.
+  intros s o. destruct o as [m| | | | | | |]; cbn; try tauto.
+  destruct m; cbn; try tauto. destruct (st_switch s); [left; reflexivity | right; discriminate].
+Qed.
+
+Theorem allowed_changes_only_by : forall s o,
+  st_allowed (snd (step s o)) <> st_allowed s -> may_change_allowed s o.
+Proof.
+  intros s o H. destruct (may_change_dec s o) as [Hm|Hm]; [exact Hm|].
+  exfalso. apply H. apply allowed_frame_step. exact Hm.
+Qed.
+
+Lemma no_genesis_run : forall ops s0, bids_allowed s0 -> Forall (fun o => o <> OGenesis) ops -> bids_allowed (run s0 ops).
+Proof. intros ops s0 H _. apply bids_allowed_run. exact H. Qed.
